@@ -70,7 +70,8 @@ pub fn judge_live(c: &FCase) -> Verdict {
             // a parked thread of the generated target has a stack (the checker built it): its stack pointer
             // lies in a readable mapping, so "non-empty thread stack" applies to it and an empty descriptor
             // means the stack is missing from the memory list
-            if let (Some(K_PARKED), Some(sp)) = (o.kind_of(t.tid as i32), o.planned_sp.get(&(t.tid as i32))) {
+            // (with skip-unreferenced requested whether a stack is kept is C20's subject)
+            if let (Some(K_PARKED), Some(sp), None) = (o.kind_of(t.tid as i32), o.planned_sp.get(&(t.tid as i32)), c.skip_principal) {
                 if let Some(l) = o.maps_before.iter().find(|l| l.start <= *sp && *sp < l.end && l.perms & 1 != 0) {
                     bad!("stack-of-live-thread-missing", "parked thread {} has its stack pointer {sp:#x} in the readable mapping [{:#x},{:#x}) but its stack is not in the memory list (empty descriptor)", t.tid, l.start, l.end);
                 }
@@ -125,10 +126,17 @@ pub fn run(ctx: &mut LaneCtx) {
         SubSpec {
             name: "live-memory",
             cases: (1_440, 30_000),
-            rule: "generated targets with 0..8 application regions (any alignment, length 1..1 MiB, optionally ending at the last byte before an unmapped or PROT_NONE page) inside pattern-filled mappings (one of which may have been made PROT_NONE afterwards, so that the fast read path fails and the /proc/pid/mem fallback is used), crash instruction pointer at start/+1/+127/+128/+129/mid/end-129..end-1 of an isolated mapping or outside every mapping, 1..33 threads (a fifth of the cases has more than 20, so that a triggered size limit shortens stacks); oracle = every descriptor's bytes equal the target's memory, requested regions / non-empty stacks (every parked thread whose stack pointer lies in a readable mapping has one) / clipped 128-byte window present, no other region; non-trivial = unaligned or boundary-adjacent app region or clipped window; distinct = hash of case",
+            rule: "generated targets with 0..8 application regions (any alignment, length 1..1 MiB, optionally ending at the last byte before an unmapped or PROT_NONE page) inside pattern-filled mappings (one of which may have been made PROT_NONE afterwards, so that the fast read path fails and the /proc/pid/mem fallback is used), crash instruction pointer at start/+1/+127/+128/+129/mid/end-129..end-1 of an isolated mapping or outside every mapping, 1..33 threads (a fifth of the cases has more than 20, so that a triggered size limit shortens stacks); oracle = every descriptor's bytes equal the target's memory, (in some cases with skip-unreferenced requested and a principal mapping that every parked stack references, so that kept stacks must be byte-faithful under that option too) requested regions / non-empty stacks (every parked thread whose stack pointer lies in a readable mapping has one) / clipped 128-byte window present, no other region; non-trivial = unaligned or boundary-adjacent app region or clipped window; distinct = hash of case",
             strategy: (prop_oneof![4 => case_strategy(if ctx.tier == Tier::Quick { 12 } else { 33 }, 0), 1 => case_strategy(34, 21)], proptest::option::weighted(0.3, (any::<u8>(), any::<u32>(), prop_oneof![1 => 0u32..64, 3 => any::<u32>()])))
                 .prop_map(|(mut c, s)| {
                     c.sealed_app = s;
+                    // one case in five asks for skip-unreferenced (and nothing else that alters bytes)
+                    // with a principal mapping every parked stack points into
+                    if let Some((a, bb, _)) = s {
+                        if (a as u32 + bb) % 5 < 2 {
+                            c.skip_principal = Some(a);
+                        }
+                    }
                     c
                 })
                 .boxed(),
